@@ -1,7 +1,9 @@
 package props
 
 import (
+	"encoding/json"
 	"fmt"
+	"math/rand"
 	"strings"
 
 	"github.com/hashicorp/hcl-lang/lang"
@@ -23,6 +25,9 @@ import (
 func governedObjects(e hclsyntax.Expression, c schema.Constraint, depth int, out *[]*hclsyntax.ObjectConsExpr) {
 	if depth > 8 || c == nil {
 		return
+	}
+	if ae, ok := c.(schema.AnyExpression); ok && governedThroughAny {
+		c = typedAnyAsCollection(ae)
 	}
 	switch cons := c.(type) {
 	case schema.Object:
@@ -76,14 +81,45 @@ func governedObjects(e hclsyntax.Expression, c schema.Constraint, depth int, out
 	}
 }
 
+// governedThroughAny makes governedObjects follow an any-expression of a concrete
+// object / map / list / set / tuple type as the collection constraint that interprets a
+// written literal of that type (set by the token variant only; workers run one property).
+var governedThroughAny bool
+
+func typedAnyAsCollection(ae schema.AnyExpression) schema.Constraint {
+	t := ae.OfType
+	switch {
+	case t == cty.NilType || t == cty.DynamicPseudoType:
+		return ae
+	case t.IsObjectType():
+		attrs := schema.ObjectAttributes{}
+		for n, at := range t.AttributeTypes() {
+			attrs[n] = &schema.AttributeSchema{Constraint: schema.AnyExpression{OfType: at}, IsOptional: true}
+		}
+		return schema.Object{Attributes: attrs}
+	case t.IsMapType():
+		return schema.Map{Elem: schema.AnyExpression{OfType: t.ElementType()}}
+	case t.IsListType():
+		return schema.List{Elem: schema.AnyExpression{OfType: t.ElementType()}}
+	case t.IsSetType():
+		return schema.Set{Elem: schema.AnyExpression{OfType: t.ElementType()}}
+	}
+	return ae
+}
+
 // c12items is the second part of C12: the hover on an item of a written
 // object / map does not depend on the items written before it. For every
 // object literal with >= 2 items inside a schema-known value, the items in
 // front of item i are removed and the hover on item i (key and value) must
 // stay the same apart from the position shift.
-type c12items struct{}
+type c12items struct{ tokens bool }
 
-func (c12items) ID() string { return "C12-items" }
+func (p c12items) ID() string {
+	if p.tokens {
+		return "C13-items"
+	}
+	return "C12-items"
+}
 func (c12items) Meta() Meta { return Meta{} }
 func (c12items) NumUnits(tier string, seed int64) int {
 	q, t := 40, 300
@@ -95,8 +131,21 @@ func (p c12items) RunUnit(idx int, tier string, seed int64, focus map[string]str
 	if idx >= len(srcs) {
 		return
 	}
-	rc := srcs[idx].Recipe
-	rnd := unitRand(seed, "C12i", idx)
+	p.runRecipe(idx, srcs[idx].Recipe, unitRand(seed, "C12i", idx), rep)
+}
+
+// Replay re-runs the part on the source of a witness.
+func (p c12items) Replay(w *runner.Witness, rep *runner.Reporter) error {
+	var u CaseSpec
+	if err := json.Unmarshal(w.Unit, &u); err != nil {
+		return err
+	}
+	p.runRecipe(0, u.Recipe, unitRand(w.Seed, "C12i", 0), rep)
+	return nil
+}
+
+func (p c12items) runRecipe(idx int, rc Recipe, rnd *rand.Rand, rep *runner.Reporter) {
+	governedThroughAny = p.tokens
 	base, err := rc.Make()
 	if err != nil {
 		return
@@ -142,6 +191,32 @@ func (p c12items) RunUnit(idx int, tier string, seed int64, focus map[string]str
 				flattenTargets(env0.PathCtx[st.Path].ReferenceTargets, &flat)
 				for _, tg := range flat {
 					if tg.RangePtr != nil && tg.RangePtr.Filename == st.File && tg.RangePtr.Start.Byte >= first && tg.RangePtr.End.Byte <= cut {
+						if p.tokens {
+							// tokens depend on a removed declaration only through a reference
+							// written in the item that addresses it (or something around it)
+							for _, o := range env0.PathCtx[st.Path].ReferenceOrigins {
+								or := o.OriginRange()
+								if or.Filename != st.File || or.Start.Byte < cut || or.End.Byte > it.ValueExpr.Range().End.Byte {
+									continue
+								}
+								mo, isM := o.(reference.MatchableOrigin)
+								if !isM {
+									declares = true
+									continue
+								}
+								oa, ta := mo.Address().String(), tg.Addr.String()
+								if len(tg.Addr) == 0 {
+									ta = tg.LocalAddr.String()
+								}
+								if strings.HasPrefix(oa, ta) || strings.HasPrefix(ta, oa) {
+									declares = true
+								}
+							}
+							if declares {
+								break
+							}
+							continue
+						}
 						declares = true
 						break
 					}
@@ -157,6 +232,10 @@ func (p c12items) RunUnit(idx int, tier string, seed int64, focus map[string]str
 				}
 				env1 := ws1.Build(true)
 				tab1 := env1.Tables[st.Path][st.File]
+				if p.tokens {
+					p.compareItemTokens(idx, i, rc, st, env0, env1, it, delta, rep)
+					continue
+				}
 				// cursors: inside the key, at the start of the value, inside the value
 				vr := it.ValueExpr.Range()
 				kr := it.KeyExpr.Range()
@@ -202,5 +281,41 @@ func (p c12items) RunUnit(idx int, tier string, seed int64, focus map[string]str
 				}
 			}
 		}
+	}
+}
+
+// compareItemTokens: the semantic tokens inside item i of an object literal must not
+// change when the items written before it are removed (apart from the shift).
+func (p c12items) compareItemTokens(unit, i int, rc Recipe, st State, env0, env1 *core.Env, it hclsyntax.ObjectConsItem, delta int, rep *runner.Reporter) {
+	lo, hi := it.KeyExpr.Range().Start.Byte, it.ValueExpr.Range().End.Byte
+	rep.Mark(unit, lo, i, -3)
+	q := core.Query{Kind: core.QSemTokens, Path: st.Path, File: st.File}
+	r0, r1 := env0.Run(q), env1.Run(q)
+	rep.Eval(2)
+	if r0.Panic != nil || r1.Panic != nil || r0.Err != nil || r1.Err != nil {
+		return
+	}
+	t0, _ := r0.Value.([]lang.SemanticToken)
+	t1, _ := r1.Value.([]lang.SemanticToken)
+	inside := func(ts []lang.SemanticToken, shift int) string {
+		var out []string
+		for _, t := range ts {
+			if t.Range.Start.Byte >= lo-shift && t.Range.End.Byte <= hi-shift {
+				out = append(out, fmt.Sprintf("%d-%d:%s%v", t.Range.Start.Byte+shift-lo, t.Range.End.Byte+shift-lo, t.Type, t.Modifiers))
+			}
+		}
+		return strings.Join(out, " ")
+	}
+	a, b := inside(t0, 0), inside(t1, delta)
+	if a != "" {
+		rep.NonTrivial(fmt.Sprintf("item-tokens|%s|%d|%d", rc, lo, i))
+	}
+	rep.Count("item_token_comparisons", 1)
+	if a != b {
+		keyKind := strings.TrimPrefix(fmt.Sprintf("%T", it.KeyExpr.(*hclsyntax.ObjectConsKeyExpr).Wrapped), "*hclsyntax.")
+		rep.Violation(&runner.Witness{Sig: "TOKEN-ITEM depends-on-preceding-items key=" + keyKind,
+			What:  fmt.Sprintf("the semantic tokens inside item #%d of an object literal change when the items written before it are removed", i),
+			Unit:  mustJSON(CaseSpec{Recipe: rc, Path: st.Path, File: st.File, Mut: Mutation{Kind: "none"}, Kind: core.QSemTokens.String(), Byte: lo}),
+			Files: filesOf(env0.WS), Expected: "with the preceding items removed: " + trunc(b, 400), Observed: "as written: " + trunc(a, 400)})
 	}
 }
